@@ -1020,4 +1020,115 @@ theorem parse_canonical (segs : List Tok) (hne : segs ≠ []) (h1 : segs ≠ [[]
     simp only
     rw [splitOn_join, ← List.map_cons, mapOpt_unescape_escape]
 
+/-! ## registration and merge read back -/
+
+theorem resolve_regInsert (root : J) (segs : List Tok) (v : J) (hne : segs ≠ []) :
+    resolveRef (regInsert root segs v) segs = .ok v := by
+  induction segs generalizing root with
+  | nil => exact absurd rfl hne
+  | cons t ts ih =>
+    cases ts with
+    | nil => simp [regInsert, resolveRef_obj, oget_oset_eq, resolveRef_nil]
+    | cons t2 ts2 =>
+      simp only [regInsert]
+      rw [resolveRef_obj, oget_oset_eq]
+      exact ih _ (by simp)
+
+theorem resolve_mergeAtPtr (root root' : J) (segs : List Tok) (src : Obj)
+    (h : mergeAtPtr root segs src = .ok root') :
+    ∃ old, resolveRef root segs = .ok (.obj old) ∧ resolveRef root' segs = .ok (.obj (omerge src old)) := by
+  induction segs generalizing root root' with
+  | nil =>
+    cases root <;> simp [mergeAtPtr] at h
+    subst h; exact ⟨_, resolveRef_nil _, resolveRef_nil _⟩
+  | cons t ts ih =>
+    cases root with
+    | obj o =>
+      simp only [mergeAtPtr] at h
+      cases hc : oget t o with
+      | none => simp [hc] at h
+      | some c =>
+        simp only [hc] at h
+        cases hm : mergeAtPtr c ts src with
+        | error e => simp [hm, Except.map] at h
+        | ok c' =>
+          simp [hm, Except.map] at h; subst h
+          obtain ⟨old, h1, h2⟩ := ih c c' hm
+          exact ⟨old, by rw [resolveRef_obj, hc]; exact h1, by rw [resolveRef_obj, oget_oset_eq]; exact h2⟩
+    | arr a =>
+      simp only [mergeAtPtr] at h
+      cases hi : parseUsize t with
+      | none => simp [hi] at h
+      | some i =>
+        simp only [hi] at h
+        cases hc : a[i]? with
+        | none => simp [hc] at h
+        | some c =>
+          simp only [hc] at h
+          cases hm : mergeAtPtr c ts src with
+          | error e => simp [hm, Except.map] at h
+          | ok c' =>
+            simp [hm, Except.map] at h; subst h
+            obtain ⟨old, h1, h2⟩ := ih c c' hm
+            have hlt : i < a.length := by
+              have := hc; simp [List.getElem?_eq_some_iff] at this; exact this.1
+            refine ⟨old, by rw [resolveRef_arr, hi]; simp only [hc]; exact h1, ?_⟩
+            rw [resolveRef_arr, hi]; simp only [List.getElem?_set_self hlt]; exact h2
+    | null => simp [mergeAtPtr] at h
+    | bool b => simp [mergeAtPtr] at h
+    | num s => simp [mergeAtPtr] at h
+    | str s => simp [mergeAtPtr] at h
+
+/-- the frame rule with the weakest divergence condition: the tokens differ, and – only if the node
+where the two pointers part is an array – they are not the same index -/
+theorem resolve_setPointer_frame' (pre : List Tok) (t u : Tok) (ps qs : List Tok) (root v root' : J)
+    (hne : t ≠ u)
+    (harr : ∀ a, resolveRef root pre = .ok (.arr a) → ¬ ∃ i, parseUsize t = some i ∧ parseUsize u = some i)
+    (h : setPointer root (pre ++ t :: ps) v = .ok root') :
+    resolveRef root' (pre ++ u :: qs) = resolveRef root (pre ++ u :: qs) := by
+  induction pre generalizing root root' with
+  | nil =>
+    simp only [List.nil_append] at h ⊢
+    cases root with
+    | obj o =>
+      obtain ⟨x, hr, _⟩ := setPointer_obj o t ps v root' h
+      subst hr
+      rw [resolveRef_obj, resolveRef_obj, oget_oset_ne t u x o (Ne.symm hne)]
+    | arr a =>
+      obtain ⟨i, x, hi, hlt, hr, _⟩ := setPointer_arr a t ps v root' h
+      subst hr
+      rw [resolveRef_arr, resolveRef_arr]
+      cases hu : parseUsize u with
+      | none => rfl
+      | some j =>
+        have hij : i ≠ j := fun e => harr a (resolveRef_nil _) ⟨i, hi, by rw [hu, e]⟩
+        simp only [List.getElem?_set_ne hij]
+    | null => exact absurd h (setPointer_scalar _ t ps v root' (by simp) (by simp))
+    | bool b => exact absurd h (setPointer_scalar _ t ps v root' (by simp) (by simp))
+    | num s => exact absurd h (setPointer_scalar _ t ps v root' (by simp) (by simp))
+    | str s => exact absurd h (setPointer_scalar _ t ps v root' (by simp) (by simp))
+  | cons s pre ih =>
+    simp only [List.cons_append] at h ⊢
+    have hne' : pre ++ t :: ps ≠ [] := by simp
+    cases root with
+    | obj o =>
+      obtain ⟨x, hr, hx⟩ := setPointer_obj o s _ v root' h
+      subst hr
+      rcases hx with ⟨hps, _⟩ | ⟨_, c, hc, hs⟩
+      · exact absurd hps hne'
+      · rw [resolveRef_obj, resolveRef_obj, oget_oset_eq, hc]
+        exact ih c x (fun a ha => harr a (by rw [resolveRef_obj, hc]; exact ha)) hs
+    | arr a =>
+      obtain ⟨i, x, hi, hlt, hr, hx⟩ := setPointer_arr a s _ v root' h
+      subst hr
+      rcases hx with ⟨hps, _⟩ | ⟨_, c, hc, hs⟩
+      · exact absurd hps hne'
+      · rw [resolveRef_arr, resolveRef_arr, hi]
+        simp only [List.getElem?_set_self hlt, hc]
+        exact ih c x (fun a' ha => harr a' (by rw [resolveRef_arr, hi]; simp only [hc]; exact ha)) hs
+    | null => exact absurd h (setPointer_scalar _ s _ v root' (by simp) (by simp))
+    | bool b => exact absurd h (setPointer_scalar _ s _ v root' (by simp) (by simp))
+    | num s' => exact absurd h (setPointer_scalar _ s _ v root' (by simp) (by simp))
+    | str s' => exact absurd h (setPointer_scalar _ s _ v root' (by simp) (by simp))
+
 end Repe
